@@ -97,6 +97,12 @@ v('C07', 'fire', KA, 'cho_solve((L, True), HP', 'cho_solve((L, False), HP')
 v('C07', 'fire', KA, 'S = HP @ H.T + R', 'S = HP @ H.T')
 v('C07 C19', 'fire', KA, 'K = cho_solve((L, True), HP, overwrite_b=True).T', 'K = cho_solve((L, True), P, overwrite_b=True).T')
 v('C07', 'silent', KA, 'U = np.eye(len(x)) - K.dot(H)', 'U = np.identity(len(x)) - K @ H')
+v('C04', 'fire', 'error_model.py', 'Phi = 0.5 * (Fi[1:] + Fi[:-1]) * dt.reshape(-1, 1, 1)', 'Phi = (Fi[1:] + Fi[:-1]) * dt.reshape(-1, 1, 1)', 'propagation: average without the 1/2')
+v('C04', 'fire', 'error_model.py', 'accel_error = util.mv_prod(Fia, accel_error)', 'accel_error = util.mv_prod(Fig, accel_error)', 'propagation: accelerometer error through the gyro coupling')
+v('C04', 'fire', 'error_model.py', 'x[i + 1] = Phi[i].dot(x[i]) + delta_sensor[i] * dt[i]', 'x[i + 1] = Phi[i].dot(x[i]) + delta_sensor[i]', 'propagation: sensor term not multiplied by the step')
+v('C04', 'fire', 'error_model.py', 'x0 = error_model.transform_to_internal(trajectory.iloc[0]) @ pva_error.values', 'x0 = error_model.transform_to_output(trajectory.iloc[0]) @ pva_error.values', 'propagation: initial error mapped with the wrong transform')
+v('C04', 'silent', 'error_model.py', 'Phi = 0.5 * (Fi[1:] + Fi[:-1]) * dt.reshape(-1, 1, 1)', 'Phi = Fi[:-1] * dt.reshape(-1, 1, 1)', 'forward Euler: a different but consistent one-step scheme')
+v('C04', 'silent', 'error_model.py', 'x[i + 1] = Phi[i].dot(x[i]) + delta_sensor[i] * dt[i]', 'x[i + 1] = Phi[i] @ x[i] + dt[i] * delta_sensor[i]', 'spelling')
 v('C19 C14', 'fire', 'inertial_sensor.py', 'return cls(transform, bias, model.noise, model.bias_walk, rng)', 'return cls(transform=transform, bias=bias, noise=model.noise,\n                   bias_walk=model.bias_walk)', 'seeded C19 round 2: generator no longer forwarded to the constructor')
 v('C19', 'silent', 'inertial_sensor.py', 'return cls(transform, bias, model.noise, model.bias_walk, rng)', 'return cls(transform=transform, bias=bias, noise=model.noise,\n                   bias_walk=model.bias_walk, rng=rng)', 'keyword form that forwards the generator')
 v('C19', 'fire', 'error_model.py', '        result[:, 5, 5] = -VN\n        return result if is_series else result[0]', '        result[:, 5, 5] = -VN\n        return result if is_series else -result[0]', 'Series arm of the 2-D embedding edited alone')
